@@ -25,11 +25,11 @@ OUTS = [None, dict(dtype='uint16', nodata=65535), None, dict(dtype='int16', noda
 def encodings(dtype):
     if dtype == 'float32':
         return [('nan', None), (-9999.0, None), ('mask', 0.0), ('mask', 3.4e38), ('mask', -1e30), ('mask', float('nan')),
-                ('mask', 'random'), (3.0e38, None), ('masktag', 'random'), ('masktag', -9999.0),
+                ('mask', 'random'), (3.0e38, None), ('masktag', 'random'), ('masktag', -9999.0), ('sidecar', 'random'), ('sidecar', 3.4e38),
                 # float64 files whose nodata value is no float32 number (incl. the float64 minimum, a common default)
                 ('f64:0.1', None), ('f64:-1e30', None), ('f64:-1.7976931348623157e308', None)]
     return [(0, None), ('mask', 0), ('mask', 255), ('mask', 'random'), ('alpha', 0), ('alpha', 255), ('alpha', 'random'),
-            ('masktag', 255), ('masktag', 'random')]
+            ('masktag', 255), ('masktag', 'random'), ('alphapart', 0), ('alphapart', 'random'), ('sidecar', 255), ('sidecar', 'random')]
 
 
 def write_encoded(path, grid, arr, valid, dtype, enc, hidden, rng, south_up=False):
@@ -57,6 +57,18 @@ def write_encoded(path, grid, arr, valid, dtype, enc, hidden, rng, south_up=Fals
         for b in range(nb):
             a[b][~valid] = hv[~valid]
         rasters.write_tif(path, grid, a, dtype=dtype, nodata=-9999.0 if dtype == 'float32' else 255, mask=valid, south_up=south_up)
+    elif enc == 'sidecar':
+        # the mask as a side-car file <name>.tif.msk
+        for b in range(nb):
+            a[b][~valid] = hv[~valid]
+        rasters.write_tif(path, grid, a, dtype=dtype, nodata=None, mask=valid, south_up=south_up, internal_mask=False)
+    elif enc == 'alphapart':
+        # semi-transparent valid pixels: any non-zero alpha is a valid pixel
+        for b in range(nb):
+            a[b][~valid] = hv[~valid]
+        pat = np.array([255, 128, 1, 254, 200, 255, 17])
+        av = np.where(valid, pat[(np.add.outer(np.arange(grid.h), 3 * np.arange(grid.w))) % len(pat)], 0)
+        rasters.write_tif(path, grid, a, dtype=dtype, nodata=None, alpha=av, south_up=south_up)
     elif enc == 'alpha':
         for b in range(nb):
             a[b][~valid] = hv[~valid]
@@ -123,7 +135,7 @@ def run(run: common.Run):
                 arr[:, rr, cc] = -9999.05
         encs = encodings(dtype)
         if dtype != 'float32' and nb not in (1, 3):
-            encs = [e for e in encs if e[0] != 'alpha']
+            encs = [e for e in encs if e[0] not in ('alpha', 'alphapart')]
         # always: the base encoding and the second one (numeric nodata for float32, internal mask for uint8); the others sampled
         picks = encs[:2] + rng.sample(encs[2:], 3 if run.quick() else min(5, len(encs) - 2))
         proc_ref = (case['proc'] == 'ref') or (case['proc'] == 'auto' and src.px <= ref.px)
@@ -304,7 +316,7 @@ def read_logic(run, tmp):
                     raw = ds.read(1).astype('float64')
                     maskbits = ds.dataset_mask().astype(bool)
                     ra = RasterArray.from_rio_dataset(ds, indexes=1)
-                    is_masked = enc in ('mask', 'alpha', 'masktag')
+                    is_masked = enc in ('mask', 'alpha', 'masktag', 'alphapart', 'sidecar')
                     nd = ds.nodata
             for r in range(3):
                 for c in range(4):
